@@ -6,7 +6,9 @@ what argparse would have stored (targets, -x patterns, -I/-E/-f, parsed -m/-s va
 executing the produced `(func, path)` pairs against a scratch distdir (directly, or through `_remove` with a
 tty-like stdout, which is the only mode in which pclean deletes).  Repositories are `SimpleTree`s of
 `pkgcore.test.misc.FakePkg` (the real `ebuild_src.package` class, so `distfiles`/`restrict` are parsed from
-SRC_URI / RESTRICT by pkgcore itself, including `->` renames and USE conditionals).  The domain object is a
+SRC_URI / RESTRICT by pkgcore itself, including `->` renames and USE conditionals).  Repository packages are normally seen through pkgcore's
+configured-repo wrapper (`repository.configured.tree`: `use`, `_raw_pkg`, USE-evaluated `distfiles`/`restrict`, as a
+domain hands them out) with generated enabled flags; the must-keep model always uses the FULL SRC_URI.  The domain object is a
 stand-in with `distdir`, `all_installed_repos`, `all_source_repos_raw`; no configuration is loaded.
 
 Oracle (own model: package matching of the target / exclusion expressions is re-implemented here on
@@ -96,6 +98,9 @@ def distfile_names(pn, ver, style):
     if style == "cond":
         n = [f"{pn}-{ver}.tar.xz", f"{pn}-docs-{ver}.tar.xz"]
         return f"http://h.invalid/{n[0]} doc? ( http://h.invalid/{n[1]} )", n
+    if style == "cond2":
+        n = [f"{pn}-{ver}.tar.gz", f"{pn}-gui-{ver}.tar.gz", f"{pn}-nogui-{ver}.tar.gz", f"{pn}-docs-{ver}.zip"]
+        return f"http://h.invalid/{n[0]} gui? ( http://h.invalid/{n[1]} doc? ( http://h.invalid/x -> {n[3]} ) ) !gui? ( http://h.invalid/{n[2]} )", n
     if style == "vtag":
         n = [f"v{ver}.tar.gz"]
         return f"https://git.invalid/{pn}/archive/{n[0]}", n
@@ -107,7 +112,26 @@ def distfile_names(pn, ver, style):
     raise core.HarnessError(style)
 
 
-STYLES = ["tgz", "tgz", "zip_", "upper", "rename", "cond", "vtag", "shared", "none"]
+STYLES = ["tgz", "tgz", "zip_", "upper", "rename", "cond", "cond", "cond2", "vtag", "shared", "none"]
+USE_FLAGS = ("doc", "gui")
+
+
+def enabled_names(pn, ver, style, use):
+    """distfiles a package needs with exactly the flags in `use` enabled (subset of the full list)"""
+    names = distfile_names(pn, ver, style)[1]
+    use = set(use)
+    if style == "cond":
+        return names if "doc" in use else names[:1]
+    if style == "cond2":
+        out = [names[0]]
+        if "gui" in use:
+            out.append(names[1])
+            if "doc" in use:
+                out.append(names[3])
+        else:
+            out.append(names[2])
+        return out
+    return names
 
 
 # ---- own matcher ---------------------------------------------------------------------
@@ -141,6 +165,38 @@ def lead_run(s):
 
 # ---- world -> pkgcore objects ----------------------------------------------------------
 
+_CONF_KLS = None
+
+
+def configured_tree(raw, use_of):
+    """the raw tree seen through pkgcore's own configured-repo machinery (repository.configured.tree +
+    package.conditionals wrapper): packages carry `use`, `_raw_pkg`, and `distfiles` / `restrict` evaluated against
+    the enabled USE flags, the way ebuild.repository.ConfiguredTree wraps them for a domain."""
+    global _CONF_KLS
+    if _CONF_KLS is None:
+        from pkgcore.repository import configured
+        from snakeoil.sequences import stable_unique
+
+        class ConfTree(configured.tree):
+            configurable = "use"
+
+            def __init__(self, raw_repo, use_map):
+                self._use_map = use_map
+                super().__init__(
+                    raw_repo,
+                    {
+                        "distfiles": lambda raw_val, use, pkg: tuple(stable_unique(raw_val.evaluate_depset(use))),
+                        "restrict": lambda raw_val, use, pkg: raw_val.evaluate_depset(use),
+                    },
+                )
+
+            def _get_pkg_kwds(self, pkg):
+                return {"initial_settings": self._use_map.get((pkg.category, pkg.package, pkg.fullver), ())}
+
+        _CONF_KLS = ConfTree
+    return _CONF_KLS(raw, use_of)
+
+
 def build_repo(pkgs, livefs=False):
     from pkgcore.repository.util import SimpleTree
     from pkgcore.test.misc import FakePkg
@@ -163,7 +219,7 @@ def build_repo(pkgs, livefs=False):
         o = cache.get(k)
         if o is None:
             src, restrict = objs[k]
-            o = cache[k] = FakePkg(f"{c}/{pn}-{v}", data={"SRC_URI": src}, eapi="8", repo=tree, restrict=restrict, iuse=("doc",))
+            o = cache[k] = FakePkg(f"{c}/{pn}-{v}", data={"SRC_URI": src}, eapi="8", repo=tree, restrict=restrict, iuse=USE_FLAGS)
         return o
 
     tree.package_class = mk
@@ -281,9 +337,13 @@ def run_case(ctx, case):
             stems.add(lead_run(n))
 
     # ---- drive pclean
+    repo_obj = build_repo(repo_pkgs)
+    if case.get("configured", True):
+        # what a domain hands out: packages configured with their enabled USE (raw package behind `_raw_pkg`)
+        repo_obj = configured_tree(repo_obj, {(p["cat"], p["pn"], p["ver"]): tuple(p.get("use", ())) for p in repo_pkgs})
     ns = types.SimpleNamespace(
         domain=types.SimpleNamespace(distdir=dist, all_installed_repos=build_repo(inst_pkgs, livefs=True), all_source_repos_raw=_NoRepo()),
-        repo=build_repo(repo_pkgs),
+        repo=repo_obj,
         targets=list(opts["targets"]),
         pretend=False,
         verbosity=0,
@@ -349,6 +409,15 @@ def run_case(ctx, case):
         cl.append("something_removed")
     if present_keep:
         cl.append("must_keep_present")
+    cond_off = set()
+    for p in repo_pkgs:
+        cond_off.update(set(names_of(p)) - set(enabled_names(p["pn"], p["ver"], p["style"], p.get("use", ()))))
+    for p in repo_pkgs:  # a file another package needs unconditionally is not "only behind a disabled flag"
+        cond_off.difference_update(enabled_names(p["pn"], p["ver"], p["style"], p.get("use", ())))
+    if any(f in cond_off for f in present_keep):
+        cl.append("must_keep_only_behind_disabled_use_flag")
+    if case.get("configured", True):
+        cl.append("repo:configured")
     at_stake = [f for f in present_keep if opts["targets"] and f not in tfiles and any(s and f.lower().startswith(s) for s in stems)]
     if at_stake:
         cl.append("foreign_must_keep_file_resembles_target")
@@ -369,7 +438,8 @@ def run_case(ctx, case):
             ctx.violation(
                 f"removed-needed:{why}:{tg}",
                 case,
-                f"{f!r} was removed although it is a distfile of a package protected by {why} (other active protections: {others or 'none'})",
+                f"{f!r} was removed although it is a distfile of a package protected by {why} (other active protections: {others or 'none'})"
+                + ("; it is listed only behind a USE flag that is disabled for the package" if f in cond_off else ""),
             )
         size, mt = files[f]
         if opts["size"] is not None and size > opts["size"]:
@@ -398,6 +468,7 @@ def pkg_strategy(with_restrict):
     }
     if with_restrict:
         d["restrict"] = st.sampled_from(["", "", "fetch", "mirror", "fetch mirror", "test"])
+        d["use"] = st.sampled_from([[], [], ["doc"], ["gui"], ["doc", "gui"]])
     return st.fixed_dictionaries(d)
 
 
@@ -460,7 +531,14 @@ def world(draw):
         "modified": draw(st.sampled_from([None, None, None, None, 500, 1000, 2000, 2500])),
         "size": draw(st.sampled_from([None, None, None, None, 11, 1024, 2048])),
     }
-    return {"repo": repo, "installed": inst, "files": files, "opts": opts, "via_remove": draw(st.booleans())}
+    return {
+        "repo": repo,
+        "installed": inst,
+        "files": files,
+        "opts": opts,
+        "via_remove": draw(st.booleans()),
+        "configured": draw(st.sampled_from([True, True, True, False])),
+    }
 
 
 GRID_PAIRS = [("foo", "foo-bar"), ("py", "py-x")]
@@ -475,8 +553,8 @@ def grid_cases():
         for style in ("tgz", "shared"):
             repo = [
                 {"cat": "cat", "pn": a, "ver": "1", "style": style, "restrict": ""},
-                {"cat": "cat", "pn": b, "ver": "1", "style": "tgz", "restrict": "fetch"},
-                {"cat": "cat", "pn": "bar", "ver": "2", "style": "tgz", "restrict": ""},
+                {"cat": "cat", "pn": b, "ver": "1", "style": "cond", "restrict": "fetch", "use": []},
+                {"cat": "cat", "pn": "bar", "ver": "2", "style": "cond2", "restrict": "", "use": ["gui"]},
             ]
             inst = [
                 {"cat": "cat", "pn": b, "ver": "0.9", "style": "tgz"},
@@ -618,6 +696,10 @@ def shrink_case(ctx, bucket, case):
             if p.get("restrict"):
                 c = copy.deepcopy(cur)
                 c["repo"][i]["restrict"] = ""
+                cands.append(c)
+            if p.get("use"):
+                c = copy.deepcopy(cur)
+                c["repo"][i]["use"] = []
                 cands.append(c)
             if p["style"] != "tgz":
                 c = copy.deepcopy(cur)
